@@ -256,6 +256,18 @@ def _subst(n, env):
         return copy.deepcopy(env[n["e"]["p"]][0])           # *param where the argument was `&place`
     if n.get("k") == "path" and n.get("p") in env:
         return copy.deepcopy(env[n["p"]][0])
+    if n.get("k") in ("field", "tfield") and isinstance(n.get("e"), dict) and n["e"].get("k") == "path" and n["e"].get("p") in env:
+        # `param.0` where the argument was `*x`: field access auto-dereferences, `(*x).0` is `x.0`
+        a0 = env[n["e"]["p"]][0]
+        if isinstance(a0, dict) and a0.get("k") == "un" and a0.get("op") == "*":
+            return dict(n, e=copy.deepcopy(a0["e"]))
+    if n.get("k") == "mcall" and isinstance(n.get("recv"), dict) and n["recv"].get("k") == "path" and n["recv"].get("p") in env:
+        a0 = env[n["recv"]["p"]][0]
+        if isinstance(a0, dict) and a0.get("k") == "mcall" and a0.get("name") in ("as_ref", "as_mut") and not a0.get("args"):
+            # `param.method(..)` where the argument was `x.as_ref()` (a Box<dyn Trait> handed on as &dyn Trait): method calls auto-dereference, it is `x.method(..)`
+            n = dict(n, recv=copy.deepcopy(a0["recv"]))
+            n["args"] = [_subst(a, env) for a in n["args"]]
+            return n
     if n.get("k") in ("call", "mcall") and isinstance(n.get("args"), list):
         # a reference parameter handed on as an argument is handed on as the reference it was bound to (`helper(mask)` -> `helper(&mut self.mask)`)
         out = {k: (_subst(v, env) if isinstance(v, (dict, list)) and k != "args" else v) for k, v in n.items()}
@@ -351,11 +363,17 @@ def _pure_arith(a):
         return True
     if k == "field":
         return _pure_arith(a["e"])
+    if k == "un" and a.get("op") == "*":
+        return isinstance(a.get("e"), dict) and a["e"].get("k") == "path"      # reading through a reference held in a local
     if k in ("paren", "cast", "un"):
-        return a.get("op") != "*" and _pure_arith(a["e"]) if k == "un" else _pure_arith(a["e"])
+        return _pure_arith(a["e"])
+    if k == "ref":
+        return _pure_arith(a["e"]) or (isinstance(a.get("e"), dict) and a["e"].get("k") == "index" and _pure_arith(a["e"].get("e")) and _pure_arith(a["e"].get("i")))
+    if k == "index":
+        return _pure_arith(a.get("e")) and _pure_arith(a.get("i"))
     if k == "bin":
         return _pure_arith(a["l"]) and _pure_arith(a["r"])
-    if k == "mcall" and not a.get("args") and a.get("name") in ("len", "nbr_sincs", "nbr_channels", "is_empty", "floor", "ceil", "abs"):
+    if k == "mcall" and not a.get("args") and a.get("name") in ("len", "nbr_sincs", "nbr_channels", "is_empty", "floor", "ceil", "abs", "as_ref", "as_mut"):
         return _pure_arith(a["recv"])
     return False
 
@@ -532,9 +550,13 @@ def inline_helpers(doc, log):
                     inner = b["e"] if isinstance(b, dict) and b.get("k") == "try" else b
                     if isinstance(inner, dict) and inner.get("k") in ("call", "mcall") and callee_of(inner, own) is not None:
                         arm["body"] = {"k": "block", "stmts": [{"k": "expr", "e": b, "ln": b.get("ln", 0)}], "ln": b.get("ln", 0)}
-        for x in list(walk(fn["body"])):
-            if x.get("k") == "block":
-                process_block(x, own, 0, x is fn["body"])
+        for _round in range(3):       # statements brought in by an inlined helper may call further helpers
+            before = len(log)
+            for x in list(walk(fn["body"])):
+                if x.get("k") == "block":
+                    process_block(x, own, 0, x is fn["body"])
+            if len(log) == before:
+                break
     # a helper whose every call site was inlined no longer exists as a separate unit: drop its definition, so that rules which enumerate
     # functions (writers of a field, panic sites, ..) see its statements where they execute - inside the callers
     inlined = {l.split("`")[1] for l in log if l.startswith("helper `")}
